@@ -100,7 +100,15 @@ pub fn gen_history(t: &mut Tape, c: &DmlCfg, max_stmts: usize) -> HCase {
     }
     let n = t.range(1, max_stmts as i64) as usize;
     for _ in 0..n {
-        let s = gen_stmt(t, &specs, &state, c, &mut next_key);
+        let mut s = gen_stmt(t, &specs, &state, c, &mut next_key);
+        // Self-referencing foreign keys: rows only ever point at earlier rows (a forest) as long
+        // as neither the key nor the referencing column is updated; cycles would make the
+        // engine's recursive referential actions (and the model's) run away.
+        if let Stmt::Update { t: ti, sets, where_ } = &s {
+            if specs[*ti].fks.iter().any(|f| f.parent == *ti && sets.iter().any(|(c, _)| *c == f.col || *c == f.pcol)) {
+                s = Stmt::Delete { t: *ti, where_: where_.clone() };
+            }
+        }
         // the generator follows the model so that later statements see plausible data
         if let Ok(o) = model_apply(&specs, &state, &s) {
             state = o.state;
@@ -155,8 +163,16 @@ pub fn run_history(case: &HCase, focus: Focus, obs: &mut Obs) -> Verdict {
             let sig: String = $sig;
             if $prop == focus {
                 if vcore::kf::is_open_global(&sig) {
+                    let stop = sig.ends_with(".self_reference");
                     if !obs.known_hits.contains(&sig) {
                         obs.known_hits.push(sig);
+                    }
+                    if stop {
+                        // the engine's state is now wrong in a recorded way: later deviations
+                        // of this history would only be consequences
+                        obs.class("stopped_after_known_self_reference_defect");
+                        obs.nontrivial = true;
+                        return Verdict::Pass;
                     }
                 } else {
                     return Verdict::fail(sig, format!("{}\n--- history so far ---\n{}", $detail, log.join(";\n")));
@@ -171,6 +187,12 @@ pub fn run_history(case: &HCase, focus: Focus, obs: &mut Obs) -> Verdict {
         log.push(sql.clone());
         obs.sub_evals += 1;
         let kind = stmt_kind(s);
+        // statements on a table with a self-referencing FOREIGN KEY (recorded defects: the cascade
+        // works on stale row positions of the same table)
+        let stmt_self_ref = match s {
+            Stmt::Delete { t, .. } | Stmt::Update { t, .. } | Stmt::Truncate { t } => specs[*t].fks.iter().any(|f| f.parent == *t),
+            _ => false,
+        };
         let pre = state.clone();
         let opaque = matches!(s, Stmt::Replace { .. } | Stmt::Upsert { .. });
         let m = model_apply(specs, &state, s);
@@ -206,7 +228,13 @@ pub fn run_history(case: &HCase, focus: Focus, obs: &mut Obs) -> Verdict {
                 };
                 state = o.state.clone();
                 let mut bad: Option<String> = None;
-                if let Some(n) = ecount {
+                // with a self-referencing FOREIGN KEY the statement's own rows and the cascaded rows
+                // live in the same table: which of them the count covers is not defined
+                let self_ref = match s {
+                    Stmt::Delete { t, .. } | Stmt::Update { t, .. } => specs[*t].fks.iter().any(|f| f.parent == *t),
+                    _ => false,
+                };
+                if let (Some(n), false) = (ecount, self_ref) {
                     // TRUNCATE / DELETE counts and cascaded effects: the reported count is the statement's own rows
                     if n != o.count {
                         bad = Some(format!("statement `{}` reports {} rows, the definition gives {}", sql, n, o.count));
@@ -218,7 +246,8 @@ pub fn run_history(case: &HCase, focus: Focus, obs: &mut Obs) -> Verdict {
                 if let Some(d) = bad {
                     let shape = where_shape(s, specs);
                     if fk_involved {
-                        report!(Focus::C12, format!("c12.effect.{}", kind), d);
+                        let self_sfx = if self_ref { ".self_reference" } else { "" };
+                        report!(Focus::C12, format!("c12.effect.{}{}", kind, self_sfx), d);
                     } else {
                         report!(Focus::C09, format!("c09.effect.{}{}", kind, shape), d);
                     }
@@ -287,7 +316,8 @@ pub fn run_history(case: &HCase, focus: Focus, obs: &mut Obs) -> Verdict {
         if specs.iter().any(|s| !s.fks.is_empty()) {
             let es = read_engine_state(&db, specs);
             if let Some(d) = orphans(specs, &es) {
-                let sig = if e.is_err() { format!("c12.orphan.after_failed_{}", kind) } else { format!("c12.orphan.after_{}", kind) };
+                let sfx = if stmt_self_ref { ".self_reference" } else { "" };
+                let sig = if e.is_err() { format!("c12.orphan.after_failed_{}{}", kind, sfx) } else { format!("c12.orphan.after_{}{}", kind, sfx) };
                 report!(Focus::C12, sig, format!("after `{}` ({}): {}", sql, if e.is_err() { "which returned an error" } else { "which succeeded" }, d));
                 // the history continues from the engine's actual state
                 state = es;
